@@ -169,3 +169,70 @@ Theorem c10_route_error_unreachable : forall (a : assets) (s : session) (r : res
   find_resume_exit a (apply_resume (resume_x0 s) wi (Some (wi, pos)) r) wi (is_timeout r) tmo <> FreErr y.
 Proof. exact route_error_unreachable. Qed.
 Print Assumptions c10_route_error_unreachable.
+
+(* ================================================================================================== *)
+(* Proof extension: the rejections characterised from the property sentence, and the converse of       *)
+(* c10_impossible_fails                                                                                *)
+(* ================================================================================================== *)
+From Verif Require Import proofs.EngineEvents.
+
+(* [rejected_by_statement a s r] (proofs/EngineEvents.v) is written from the sentence over the session and the store
+   alone: the session is not waiting, or it is waiting and no run is, or it is waiting and the wait at the waiting
+   run's location does not accept this type of resume while none of the conditions that make resumption impossible
+   holds:
+       s_status s <> SWaiting \/
+       (s_status s = SWaiting /\ Forall (fun rn => r_status rn <> RWaiting) (s_runs s)) \/
+       (s_status s = SWaiting /\ exists wi pos n w, waiting_run s = Some wi /\ ~ impossible a s wi /\
+                                   resume_site a s wi (Some (pos, n, w)) /\ accepts w r = false)
+   The engine rejects a resume with an engine error EXACTLY then - in all three forms of the model. *)
+Theorem c10_rejected_iff_statement : forall (a : assets) (s : session) (r : resume) (tmo : text),
+  (exists code, resume_session a s r tmo = Rejected code) <-> rejected_by_statement a s r.
+Proof. exact rejected_iff_statement. Qed.
+Print Assumptions c10_rejected_iff_statement.
+
+Theorem c10_engine_error_iff_statement : forall (a : assets) (s : session) (loaded : bool) (r : resume) (tmo : text),
+  (exists x' loaded' code, resume_mp a s loaded r tmo = (x', loaded', OErr code)) <-> rejected_by_statement a s r.
+Proof. exact resume_mp_error_iff_statement. Qed.
+Print Assumptions c10_engine_error_iff_statement.
+
+(* so the premise of c10_rejected_changes_nothing is the sentence's: a resume that the statement says is rejected
+   returns an engine error and leaves the session, the sprint and (for a session whose parent run is loaded as
+   start / ReadSession load it) the transient flag exactly as they were *)
+Theorem c10_rejected_by_statement_changes_nothing : forall (a : assets) (s : session) (loaded : bool) (r : resume) (tmo : text),
+  rejected_by_statement a s r -> loaded = trigger_has_run (s_trigger s) ->
+  exists code, resume_mp a s loaded r tmo = ({| session_ := s; sprint_ := empty_sprint |}, loaded, OErr code).
+Proof.
+  intros a s loaded r tmo Hrej Hl.
+  destruct (proj2 (resume_mp_error_iff_statement a s loaded r tmo) Hrej) as (x' & l' & code & H).
+  destruct (c10_rejected_changes_nothing a s loaded r tmo x' l' code Hl H) as [-> ->]. exists code. exact H.
+Qed.
+Print Assumptions c10_rejected_by_statement_changes_nothing.
+
+(* The converse of c10_impossible_fails.  For a well-formed waiting session: a resume that is not rejected ends as
+   "failed without having run anything" - its sprint is exactly one failure event of the waiting run (naming no step) -
+   EXACTLY when one of the conditions that make resumption impossible holds (flow missing or unusable, resume limit
+   reached, vanished node / empty path, node without router or wait). *)
+Theorem c10_failed_without_running_iff_impossible : forall (a : assets) (s : session) (r : resume) (tmo : text) (wi : nat) (x' : st),
+  post_inv s -> s_status s = SWaiting -> waiting_run s = Some wi ->
+  resume_session a s r tmo = Resumed (ROk x') ->
+  (flow_unusable a s wi \/ resume_limit_reached a s \/ resume_site a s wi None
+   <-> exists c, sp_events (sprint_ x') = [(Some wi, {| ev_step := None; ev_kind := EFailure c |})]).
+Proof. exact failed_without_running_iff_impossible. Qed.
+Print Assumptions c10_failed_without_running_iff_impossible.
+
+(* The trichotomy: every resume of a well-formed waiting session falls into exactly one of the three situations of
+   the statement, each with its own outcome - rejected with an engine error; impossible: failed with exactly one
+   failure event and nothing else changed; otherwise the resume is applied: whatever the call returns, its sprint
+   begins with the resume's own event (msg_received / wait_timed_out / run_expired / dial_ended) on the step the
+   waiting run was at. *)
+Theorem c10_resume_trichotomy : forall (a : assets) (s : session) (r : resume) (tmo : text) (wi : nat),
+  post_inv s -> s_status s = SWaiting -> waiting_run s = Some wi ->
+  (rejected_by_statement a s r /\ ~ impossible a s wi /\ exists code, resume_session a s r tmo = Rejected code) \/
+  (impossible a s wi /\ ~ rejected_by_statement a s r /\
+     exists x', resume_session a s r tmo = Resumed (ROk x') /\ ended_as_failed s wi x') \/
+  (~ rejected_by_statement a s r /\ ~ impossible a s wi /\
+     exists pos n w, resume_site a s wi (Some (pos, n, w)) /\ accepts w r = true /\
+       forall x', resume_session a s r tmo = Resumed (ROk x') ->
+         exists new, sp_events (sprint_ x') = (Some wi, {| ev_step := Some (wi, pos); ev_kind := resume_kind r |}) :: new).
+Proof. exact resume_trichotomy. Qed.
+Print Assumptions c10_resume_trichotomy.
